@@ -1,6 +1,6 @@
 (* P_C12_names.v -- C12 / C13: the identifiers moq chooses are valid identifiers.
    Statements only; proofs in Names_Proofs.v. *)
-From Moq Require Import Strs GoTypes TypeString VarName Registry Scope Names_Proofs.
+From Moq Require Import Strs GoTypes TypeString VarName Registry Scope Gen Benign WellScoped Names_Proofs NamesRun_Proofs.
 Local Open Scope string_scope.
 
 (* a name derived from a type is an identifier whenever the type names it is built from are *)
@@ -28,3 +28,27 @@ Example C13_unsafe_pointer_fixed :
   var_name "" (TSlice (TBasic "Pointer" KOther true)) "" = "pointers" /\
   var_name "" (TMap (TBasic "string" KString false) (TBasic "Pointer" KOther true)) "" = "stringToPointer".
 Proof. exact unsafe_pointer_names. Qed.
+
+(* the whole run: under the computed guard (at no AddVar does an import-driven rename q -> qMoqParam
+   land on a taken name) the parameters -- and with -stub the results -- of every generated method
+   of every mock have pairwise distinct names *)
+Theorem C12_distinct_whole_run i c args d :
+  mock_run i c args = Ok d -> names_run_ok i c args = true ->
+  forallb (fun k => forallb (names_distinct d) (mk_methods k)) (d_mocks d) = true.
+Proof. exact (run_names_distinct i c args d). Qed.
+
+(* the guard holds on a run in which numbering and a qualifier escape both happen *)
+Example C12_distinct_guard_holds :
+  let src := mkPkg "example.com/m/store" "store" in
+  let cl := mkPkg "example.com/m/one/client" "client" in
+  let s := TBasic "string" KString false in
+  let i := mkInput src [] None
+     [("Repo", LIface true true []
+        [mkMethod "Get" (mkSig [("", s); ("client", s); ("", s); ("c", TNamed (Some cl) "T" [])] false [("", s)])])] in
+  names_run_ok i (mkConfig "" true false false) ["Repo"] = true /\
+  match mock_run i (mkConfig "" true false false) ["Repo"] with
+  | Ok d => map (fun k => map (fun m => map pd_name (md_params m ++ md_returns m)%list) (mk_methods k)) (d_mocks d)
+            = [[["s1"; "clientMoqParam"; "s2"; "c"; "sOut"]]]
+  | _ => False
+  end.
+Proof. vm_compute. split; reflexivity. Qed.
